@@ -369,6 +369,8 @@ def build_ctor(case):
             tr = [] if node[1] is None else [scene.MatrixTransform(numpy.array(node[1], dtype=numpy.float32))]
             return scene.Node('n%d' % counter[0], children=[mk(ch) for ch in node[2]], transforms=tr)
         if k == 'ig':
+            if not node[2]:        # an instance without bindings is usually made without the argument
+                return scene.GeometryNode(geoms[node[1]])
             return scene.GeometryNode(geoms[node[1]], [scene.MaterialNode(s, mats[m], []) for s, m in node[2]])
         if k == 'il':
             return scene.LightNode(lights[node[1]])
@@ -523,6 +525,8 @@ def render_xml(case):
 
 
 def build(case):
+    from vlib import prelude
+    prelude.touch()             # other instances were made and bound before this scene
     if case['mode'] == 'ctor':
         return build_ctor(case)
     import collada
@@ -824,7 +828,8 @@ def retraverse(case, doc, uidx, eseed):
                 i = r.randrange(len(case['geoms']))
                 b = gen_binds(r, case['nmat'])
                 cn[2].append(['ig', i, b])
-                on.children.append(scene.GeometryNode(doc.geometries['g%d' % i], [scene.MaterialNode(s_, doc.materials['m%d' % m_], []) for s_, m_ in b]))
+                on.children.append(scene.GeometryNode(doc.geometries['g%d' % i], [scene.MaterialNode(s_, doc.materials['m%d' % m_], []) for s_, m_ in b])
+                                   if b else scene.GeometryNode(doc.geometries['g%d' % i]))
             else:
                 continue
             hist.append('add-' + k)
